@@ -8,6 +8,8 @@
 (***************************************************************************)
 EXTENDS Explore
 
+AbiM == INSTANCE Abi     \* the platform ABIs (C20): which register is the stack pointer
+
 VARIABLE sp0
 vars17 == <<vars, sp0>>
 
@@ -39,6 +41,14 @@ Completes ==
     \/ (PP[p].entry_has_pred /\ PP[p].outcome.k = "err")
     \/ Report(<<p, "completion">>, [why |-> "completion", prog |-> p, arch |-> PP[p].arch, outcome |-> PP[p].outcome])
 
-Sound == Completes /\ SPSound
+\* "for every supported architecture": the scalar the analysis follows (architecture.stack_pointer()) is the
+\* platform's stack pointer - otherwise every claim is about a scalar the code never touches
+SpIsAbi ==
+  (n = 0 /\ ii = 1 /\ PP[p].arch \in AbiM!Archs) =>
+    \/ <<SpN(p), SpW(p)>> = AbiM!Abi(PP[p].arch).sp
+    \/ Report(<<p, "spname">>, [why |-> "stack-pointer-scalar", prog |-> p, arch |-> PP[p].arch, analysed |-> PP[p].sp,
+                                abi |-> AbiM!Abi(PP[p].arch).sp])
+
+Sound == Completes /\ SPSound /\ SpIsAbi
 View17 == <<p, st, prev, sp0>>
 =============================================================================
